@@ -236,10 +236,12 @@ class Driver:
                 r = [w.key_for_path(path, level_offset=off, **kw2)]
             elif op == 'export':
                 kw2 = {k: v for k, v in kw.items() if k != 'account_id' or not self.cfg['watch']}
+                if a.get('spell') == 'as_private':
+                    kw2['as_private'] = True
                 text = 'public_master(%s)' % kw2
                 pm = w.public_master(**kw2)
                 self.exported = self.ever_exported = True
-                if not pm.wif or pm.is_private:
+                if not pm.wif or bool(pm.is_private) != (a.get('spell') == 'as_private' and bool(w.main_key.is_private)):
                     return False, [], text + ' returned no public key'
                 self.last_export = (int(pm.key_id), pm.wif)
                 r = [pm]
@@ -327,6 +329,13 @@ class Driver:
             return max(ix) if ix else -1
         if self.queue:
             return self.queue.pop(0)
+        if watch and rng.random() < 0.1:
+            # a wallet made from an account key asked for what its key material does not give: another witness type,
+            # through every kind of request
+            wt2 = rng.choice([t for t in WTS if t != cfg['wt']])
+            op = rng.choice(['new_keys', 'new_keys', 'get_keys', 'get_keys', 'key_for_path', 'new_account'])
+            return req(op, cfg['net'], wt2, cfg['acct'] if op != 'new_account' else rng.choice([-1, 1]), rng.choice([0, 1]),
+                       rng.choice([1, 1, 2, 3]) if op != 'new_account' else 1, rng.choice([0, 0, 1]))
         if not cfg['ms'] and rng.random() < (0.2 if self.ooo else 0.07):
             # scenario: keys of one chain created by position in descending order with holes (as a restore or an import of
             # known positions does), the wallet possibly reopened, then fresh keys of that chain
@@ -558,13 +567,17 @@ def _family(job, d):
     try:
         # the account public key is exported by number (a recorded request: it has to be the key of THAT account)
         drv.last_export = None
-        drv.step({'op': 'export', 'net': an, 'wt': awt, 'acct': aacct, 'ch': 0, 'n': 1, 'idx': 0, 'form': 'args', 'explicit': True}, 0)
+        # (every other family: the PRIVATE account key - a wallet that can sign for one account but, like the watch-only
+        # one, derives nothing outside it)
+        apriv = bool(job.get('acctpriv'))
+        drv.step({'op': 'export', 'net': an, 'wt': awt, 'acct': aacct, 'ch': 0, 'n': 1, 'idx': 0, 'form': 'args', 'explicit': True,
+                  'spell': 'as_private' if apriv else 'public_master'}, 0)
         if not drv.last_export:
             raise RuntimeError('public_master(account_id=%d, witness_type=%s, network=%s) gave no key' % (aacct, awt, an))
         pmid, pmwif = drv.last_export
         w3 = Wallet.create(name + 'p', keys=pmwif, network=an, witness_type=awt, db_uri=uri(name + 'p'))
         w3name = name + 'p'
-        cfg3 = {'net': an, 'wt': awt, 'acct': _int(w3.main_key.account_id), 'ms': False, 'cos': 0, 'watch': True}
+        cfg3 = {'net': an, 'wt': awt, 'acct': _int(w3.main_key.account_id), 'ms': False, 'cos': 0, 'watch': True, 'priv': apriv}
         drv3 = Driver(w3, name + 'p', uri(name + 'p'), cfg3, rng)
         drv3.gentle = bool(job.get('gentle'))
         drv3.ooo = bool(job.get('ooo'))
@@ -588,8 +601,8 @@ def _family(job, d):
     if w3name:
         rows3, obs3 = table_of(w3name, uri(w3name))
         wtrace = {'k': 'trace', 'cfg': cfg3, 'events': drv3.events, 'keys': rows3, 'restored': [], 'cotrees': []}
-        res['keys'] += [dict(x, wallet='watch-only', exported=drv3.ever_exported) for x in
-                        key_records(rows3, obs3, {'root': 'pub', 'parent': obs[pmid]}, rng, job.get('nleaf'))]
+        res['keys'] += [dict(x, wallet='account-private' if apriv else 'watch-only', exported=drv3.ever_exported) for x in
+                        key_records(rows3, obs3, {'root': 'acct' if apriv else 'pub', 'parent': obs[pmid]}, rng, job.get('nleaf'))]
     # (b) restored from the same material in another spelling, every chain derived in bulk
     leafs = [row_of(k) for k in drv.w.keys() if k.depth == drv.w.key_depth]
     if kind == 'mnemonic':
@@ -622,7 +635,7 @@ def jobs_for(n, base, nleaf=None):
         # at a time (so that its history is not cut short by the known deviation of bulk creation)
         gentle = net.startswith('litecoin') and (i // len(combos)) % 2 == 0
         jobs.append({'seed': base + i, 'net': net, 'wt': wt, 'nops': 6 + (i * 7) % 9, 'nleaf': nleaf, 'gentle': gentle,
-                     'ooo': i % 3 == 1})
+                     'ooo': i % 3 == 1, 'acctpriv': i % 2 == 1})
     return jobs
 
 
@@ -726,7 +739,7 @@ def run(replay=None):
     for t, fam, v in zip(trecs, tinfo, tver):
         ck.traces += 1
         case = {'job': fam['job']}
-        kindw = 'multisig' if t['cfg']['ms'] else ('watch-only' if t['cfg']['watch'] else 'full')
+        kindw = 'multisig' if t['cfg']['ms'] else (('account-private' if t['cfg'].get('priv') else 'watch-only') if t['cfg']['watch'] else 'full')
         for e in t['events']:
             own = (e['a']['net'], e['a']['wt'], e['a']['acct']) == (t['cfg']['net'], t['cfg']['wt'], t['cfg']['acct'])
             ck.case((kindw, t['cfg']['net'], t['cfg']['wt'], e['a']['op'], min(e['a']['n'], 2), own, e['ok']))
